@@ -193,6 +193,7 @@ fn prep_open(name: &str, holder: bool, force_close: bool) -> Scen {
 	}
 	let seed_txs = nodes[0].tx_broadcaster.txn_broadcast();
 	quiet(&nodes[0]);
+	let base_conf = nodes[0].node.list_channels().first().and_then(|c| c.confirmations).unwrap_or(0);
 	let (mgr_bytes, mon_bytes) = snapshot(&nodes[0]);
 	let base_blocks = nodes[0].blocks.lock().unwrap().clone();
 	let ucfg = nodes[0].node.get_current_config();
@@ -202,7 +203,7 @@ fn prep_open(name: &str, holder: bool, force_close: bool) -> Scen {
 	let mut s = Scen {
 		name: name.to_string(), nut, nodes, mgr_bytes, mon_bytes, base_blocks, ucfg, txs: vec![],
 		funding_txid, chan_id, hashes: vec![hash_out1, hash_out2, hash_in1], failtrig: vec![2, 1, 0],
-		minh2: EXP + 1, funding_role: false, base_conf: 0, kinds: vec![],
+		minh2: EXP + 1, funding_role: false, base_conf, kinds: vec![],
 		other_commit: Some(if holder { theirs[0].compute_txid() } else { ours[0].compute_txid() }), seed_txs,
 	};
 	if holder {
@@ -327,6 +328,8 @@ struct Run<'a> {
 	irrev: Vec<Value>,
 	bcast: BTreeSet<Vec<(usize, u32)>>,
 	ncalls: usize,
+	/// the highest chain the client has known so far (see `go`)
+	high_chain: Vec<usize>,
 }
 
 fn filler(id: usize) -> Transaction {
@@ -359,7 +362,7 @@ impl<'a> Run<'a> {
 			blks.push(Blk { block: Block { header, txdata }, height, parent: p, roles });
 		}
 		let base_hashes = s.base_blocks.iter().map(|b| b.0.block_hash()).collect();
-		let mut r = Run { s, blks, log: vec![], chain_now: vec![0], base_hashes, base_h, evs: vec![], msgs: vec![], irrev: vec![], bcast: BTreeSet::new(), ncalls: 0 };
+		let mut r = Run { s, blks, log: vec![], chain_now: vec![0], base_hashes, base_h, evs: vec![], msgs: vec![], irrev: vec![], bcast: BTreeSet::new(), ncalls: 0, high_chain: vec![0] };
 		let seeds: Vec<Vec<(usize, u32)>> = r.s.seed_txs.iter().map(|t| r.claim_sig(t)).collect();
 		r.bcast.extend(seeds);
 		r
@@ -665,10 +668,13 @@ impl<'a> Run<'a> {
 				self.log.push(json!({"ev":"reload"}));
 			}
 			let newchain = self.chain_of(tip);
-			let oldh = self.blks[*self.chain_now.last().unwrap()].height;
-			let grows = self.blks[tip].height >= oldh;
 			self.chain_now = newchain.clone();
-			if grows { self.set_blocks(&newchain); }
+			// `node.blocks` only feeds TestBroadcaster's "never broadcast before its locktime" hygiene
+			// assertion, which is not part of this property and is meaningless across a rewind: keep
+			// it at the highest chain seen so that it never fires because the chain got shorter.
+			if self.blks[tip].height >= self.blks[*self.high_chain.last().unwrap()].height { self.high_chain = newchain.clone(); }
+			let hc = self.high_chain.clone();
+			self.set_blocks(&hc);
 			self.log.push(json!({"ev":"begin","idx":i + 1,"target":tip}));
 			let ops = tr["ops"].as_array().unwrap();
 			let whos: Vec<&str> = match order { "mgr_first" | "mgr_all" => vec!["mgr", "mon"], _ => vec!["mon", "mgr"] };
@@ -682,7 +688,6 @@ impl<'a> Run<'a> {
 					for w in whos.iter() { self.exec(w, op); }
 				}
 			}
-			if !grows { self.set_blocks(&newchain); }
 			self.conclusions(i + 1, tip);
 		}
 	}
@@ -752,7 +757,7 @@ fn main() {
 		let scen = cache.get_mut(&name).unwrap();
 		let mut log: Vec<Value> = Vec::new();
 		log.push(json!({"ev":"reset","kind":sc["kind"],"hist":sc["hist"],"scen":name,"parent":sc["parent"],"txs":sc["txs"],
-			"targets":sc["targets"],"order":sc["order"],"ard":consts.anti_reorg_delay,"minh2":scen.minh2,
+			"targets":sc["targets"],"order":sc["order"],"ard":consts.anti_reorg_delay,"minh":(1..5).map(|r| scen.minh(r)).collect::<Vec<_>>(),
 			"funding_role":scen.funding_role,"failtrig":scen.failtrig,"base_conf":scen.base_conf,
 			"reloads": sc["trans"].as_array().map(|t| t.iter().map(|x| x["reload"].as_bool().unwrap_or(false)).collect::<Vec<_>>()).unwrap_or_default(),
 			"inputs": (1..5).map(|r| scen.txs[r].as_ref().map(|t| t.input.iter().map(|i| json!([scen.tx_idx(&i.previous_output.txid), i.previous_output.vout])).collect::<Vec<_>>()).unwrap_or_default()).collect::<Vec<_>>()}));
